@@ -45,10 +45,12 @@ def oab_tamper(res, tier, rng):
         if i == 0:
             # directed: one stored-type LZX block whose CRC is exactly 0 (a legitimate value, not "no checksum"): the last four data bytes are the
             # little-endian CRC register of what precedes them
-            f, plain = oabfmt.build_full(rng, [64], kinds=[1], pad=[0], btypes=[3]); base = None; lab = "full-zero-crc"; padded = False; patch = False; bufsz = 4096
-            tail = struct.pack("<I", oabfmt.regcrc(plain[:-4]))
-            if f.endswith(plain[-4:]) and oabfmt.regcrc(plain[:-4] + tail) == 0:
-                plain = plain[:-4] + tail; f = bytearray(f[:-4] + tail); struct.pack_into("<I", f, 16 + 12, 0); f = bytes(f)
+            # (own generator state, the same on every run; drawn again until the block's raw data ends the file)
+            for k0 in range(200):
+                f, plain = oabfmt.build_full(random.Random(1200 + k0), [64], kinds=[1], pad=[0], btypes=[3]); base = None; lab = "full-zero-crc"; padded = False; patch = False; bufsz = 4096
+                tail = struct.pack("<I", oabfmt.regcrc(plain[:-4]))
+                if f.endswith(plain[-4:]) and oabfmt.regcrc(plain[:-4] + tail) == 0:
+                    plain = plain[:-4] + tail; f = bytearray(f[:-4] + tail); struct.pack_into("<I", f, 16 + 12, 0); f = bytes(f); break
         hdr = 28 if patch else 16
         # walk the blocks
         pos = hdr; blocks = []
@@ -58,6 +60,12 @@ def oab_tamper(res, tier, rng):
             else: csize, lzx = b, a == 1
             if lzx and csize: blocks.append((pos, csize))
             pos += 16 + csize
+        if lab == "full-zero-crc":
+            # every one of the last eight data bytes, two alterations each (the stored CRC stays 0)
+            for back in range(1, 9):
+                for x_ in (1, 0x80):
+                    t = bytearray(f); o = len(f) - back; t[o] ^= x_
+                    scns.append(oablib.scn_full(bytes(t), bufsz)); meta.append((lab, "payload", o, plain))
         for bi_, (bp, cs) in enumerate(blocks):
             for _ in range(6 if tier == "quick" else 12):
                 r = rng.random(); t = bytearray(f)
